@@ -25,7 +25,9 @@ NProps(id) == CASE id \in {"dav.Stat", "dav.ReadDir", "cal.FindCalendars", "card
                 [] OTHER -> 1
 XCases == {[m |-> m.id, kind |-> m.kind, st |-> 207, ct |-> "xml", body |-> "valid", place |-> XPlace(k, c)] :
              m \in {x \in Methods : x.kind \in MsKinds}, k \in 1..5, c \in (IF Big THEN {401, 403, 423, 500, 507} ELSE {403, 507})}
-ASSUME \A c \in XCases : ErrExpected(c.kind, c)
+RCases == {[m |-> m.id, kind |-> m.kind, st |-> 207, ct |-> "xml", body |-> "valid", place |-> RPlace(c)] :
+             m \in {x \in Methods : x.kind \in MsKinds}, c \in RespCodes}
+ASSUME \A c \in XCases \cup RCases : ErrExpected(c.kind, c)
 \* payloads that are well-formed XML but carry an unparsable object: the call must fail, not panic
 PayloadMethods == {"cal.QueryCalendar", "cal.MultiGetCalendar", "cal.GetCalendarObject", "card.QueryAddressBook", "card.MultiGetAddressBook", "card.GetAddressObject"}
 PayloadCases == {[m |-> m.id, kind |-> m.kind, st |-> IF m.kind = "getobj" THEN 200 ELSE 207, ct |-> IF m.kind = "getobj" THEN "obj" ELSE "xml", body |-> b, place |-> "none"] :
@@ -35,7 +37,7 @@ ASSUME \A c \in Cases : (c.kind = "plain" /\ Is2xx(c.st)) => ~ErrExpected(c.kind
 ASSUME \A c \in Cases : ~Is2xx(c.st) => ErrExpected(c.kind, c) /\ CodeExpected(c) = c.st
 ASSUME \A c \in Cases : (c.kind \in MsKinds /\ c.st = 207 /\ c.body = "valid" /\ c.place \in {"none", "opt404"}) => ~ErrExpected(c.kind, c)
 ASSUME \A c \in PayloadCases : ErrExpected(c.kind, c)
-ASSUME ndJsonSerialize(IOEnv.OUT \o "/c14.ndjson", SetToSeq(Cases \cup PayloadCases \cup {c \in XCases : \E k \in 1..NProps(c.m) : \E code \in {401, 403, 423, 500, 507} : c.place = XPlace(k, code)}))
+ASSUME ndJsonSerialize(IOEnv.OUT \o "/c14.ndjson", SetToSeq(Cases \cup PayloadCases \cup RCases \cup {c \in XCases : \E k \in 1..NProps(c.m) : \E code \in {401, 403, 423, 500, 507} : c.place = XPlace(k, code)}))
 ASSUME PrintT(<<"COUNTS", Cardinality(Cases \cup PayloadCases), Cardinality(Methods)>>)
 VARIABLE x
 Init == x = 0
